@@ -102,42 +102,55 @@ theorem mkChunk_ok (start stop : Int) (seq : List Char) (h0 : 0 ≤ start) (h1 :
   rfl
 
 /-- whole-chromosome source with bounds `[bs, be)` on the sequence (taken from the parent: `[0, len)`, or explicit):
-    for a range inside the bounds the new parent is the chromosome stretch `[start, stop)` (the unchanged parent
-    for the bounds themselves) -/
+    the new parent is the chromosome stretch `[start, stop)` cut to the bounds (the unchanged parent for the bounds
+    themselves; none when nothing of the range lies within the bounds) -/
 theorem subsetParent_whole (src : Source) (seq : List Char) (hp : src.par = .whole seq) (bs be : Int)
-    (hb : selfBounds src = some (bs, be)) (hbs : 0 ≤ bs ∧ be ≤ seq.length)
-    (start stop : Int) (h : bs ≤ start ∧ start < stop ∧ stop ≤ be) :
+    (hb : selfBounds src = some (bs, be)) (hbs : 0 ≤ bs ∧ bs ≤ be ∧ be ≤ seq.length)
+    (start stop : Int) (hne : start ≠ stop) :
     subsetParent src start stop =
-      .ok (if start = bs ∧ stop = be then .whole seq else .chunk start stop (slice seq start stop)) := by
+      .ok (if start = bs ∧ stop = be then .whole seq
+           else if max start bs < min stop be then
+             .chunk (max start bs) (min stop be) (slice seq (max start bs) (min stop be))
+           else .none) := by
   unfold subsetParent
   rw [hp]
-  have hne : ¬ start = stop := by omega
   simp only [needBounds_of hb, bind, Except.bind, located, hne, if_false]
   by_cases hid : start = bs ∧ stop = be
   · simp only [hid, and_self, if_true]; rfl
-  · simp only [hid, if_false, Par.isChunk, Bool.false_eq_true, false_and]
-    rw [p2r_in bs be start (by omega), ]
-    simp only []
-    rw [p2r_in bs be (stop - 1) (by omega)]
-    simp only []
-    have e1 : stop - 1 - bs + 1 = stop - bs := by omega
-    rw [e1, slice_slice seq bs be (start - bs) (stop - bs) (by omega) (by omega) (by omega)]
-    have e2 : bs + (start - bs) = start := by omega
-    have e3 : bs + (stop - bs) = stop := by omega
-    rw [e2, e3]
-    exact mkChunk_ok _ _ _ (by omega) (by omega) (by rw [slice_length _ _ _ (by omega) (by omega) (by omega)])
+  · simp only [hid, if_false]
+    have e1 : (if start < bs then bs else start) = max start bs := by split <;> omega
+    have e2 : (if stop > be then be else stop) = min stop be := by split <;> omega
+    rw [e1, e2]
+    by_cases hlt : max start bs < min stop be
+    · have hge : ¬ max start bs ≥ min stop be := by omega
+      simp only [hge, hlt, if_false, if_true]
+      rw [p2r_in bs be (max start bs) (by omega)]
+      simp only []
+      rw [p2r_in bs be (min stop be - 1) (by omega)]
+      simp only []
+      have e3 : min stop be - 1 - bs + 1 = min stop be - bs := by omega
+      rw [e3, slice_slice seq bs be (max start bs - bs) (min stop be - bs) (by omega) (by omega) (by omega)]
+      have e4 : bs + (max start bs - bs) = max start bs := by omega
+      have e5 : bs + (min stop be - bs) = min stop be := by omega
+      rw [e4, e5]
+      exact mkChunk_ok _ _ _ (by omega) (by omega) (by rw [slice_length _ _ _ (by omega) (by omega) (by omega)])
+    · have hge : max start bs ≥ min stop be := by omega
+      simp only [hge, hlt, if_true, if_false]
+      rfl
 
 /-- chunk source `[cs, ce)` whose bounds `[bs, be)` overlap the chunk: the located range is `[A, B) = [max bs cs,
-    min be ce)`.  For a range whose clamp to the BOUNDS lands inside the located range, the new parent is the
-    chromosome stretch `[max start bs, min stop be)` read from the chunk (nothing lost at either end: repaired
-    F-C09c); the bounds themselves keep the whole chunk. -/
+    min be ce)`.  The new parent is the chromosome stretch `[max start A, min stop B)` read from the chunk (nothing
+    lost at either end: repaired F-C09c; clamped to the sequence the collection has: repaired F-C09d); the bounds
+    themselves keep the whole chunk; none when nothing of the range lies on the located range. -/
 theorem subsetParent_chunk (src : Source) (cs : Int) (seq : List Char) (hp : src.par = .chunk cs seq)
     (bs be : Int) (hb : selfBounds src = some (bs, be)) (hcs : 0 ≤ cs) (hbb : bs ≤ be)
-    (hov : max bs cs < min be (cs + seq.length)) (start stop : Int) (hne : start ≠ stop)
-    (h : max bs cs ≤ max start bs ∧ max start bs < min stop be ∧ min stop be ≤ min be (cs + seq.length)) :
+    (hov : max bs cs < min be (cs + seq.length)) (start stop : Int) (hne : start ≠ stop) :
     subsetParent src start stop =
       .ok (if start = bs ∧ stop = be then .chunk cs (cs + seq.length) seq
-           else .chunk (max start bs) (min stop be) (slice seq (max start bs - cs) (min stop be - cs))) := by
+           else if max start (max bs cs) < min stop (min be (cs + seq.length)) then
+             .chunk (max start (max bs cs)) (min stop (min be (cs + seq.length)))
+               (slice seq (max start (max bs cs) - cs) (min stop (min be (cs + seq.length)) - cs))
+           else .none) := by
   unfold subsetParent
   rw [hp]
   have hovl : overlapInt (cs, cs + (seq.length : Int)) (bs, be) = true := by
@@ -145,21 +158,30 @@ theorem subsetParent_chunk (src : Source) (cs : Int) (seq : List Char) (hp : src
   simp only [needBounds_of hb, bind, Except.bind, located, hovl, if_true, hne, if_false]
   by_cases hid : start = bs ∧ stop = be
   · simp only [hid, and_self, if_true]; rfl
-  · simp only [hid, if_false, Par.isChunk, true_and]
-    have e1 : (if start < bs then bs else start) = max start bs := by split <;> omega
-    have e2 : (if stop > be then be else stop) = min stop be := by split <;> omega
+  · simp only [hid, if_false]
+    have e1 : (if start < max bs cs then max bs cs else start) = max start (max bs cs) := by split <;> omega
+    have e2 : (if stop > min be (cs + (seq.length : Int)) then min be (cs + (seq.length : Int)) else stop)
+        = min stop (min be (cs + seq.length)) := by split <;> omega
     rw [e1, e2]
-    rw [p2r_in (max bs cs) (min be (cs + seq.length)) (max start bs) (by omega)]
-    simp only []
-    rw [p2r_in (max bs cs) (min be (cs + seq.length)) (min stop be - 1) (by omega)]
-    simp only []
-    have e3 : min stop be - 1 - max bs cs + 1 = min stop be - max bs cs := by omega
-    rw [e3, slice_slice seq (max bs cs - cs) (min be (cs + seq.length) - cs) _ _ (by omega) (by omega) (by omega)]
-    have e4 : max bs cs - cs + (max start bs - max bs cs) = max start bs - cs := by omega
-    have e5 : max bs cs - cs + (min stop be - max bs cs) = min stop be - cs := by omega
-    rw [e4, e5]
-    exact mkChunk_ok _ _ _ (by omega) (by omega)
-      (by rw [slice_length _ _ _ (by omega) (by omega) (by omega)]; omega)
+    by_cases hlt : max start (max bs cs) < min stop (min be (cs + (seq.length : Int)))
+    · have hge : ¬ max start (max bs cs) ≥ min stop (min be (cs + (seq.length : Int))) := by omega
+      simp only [hge, hlt, if_false, if_true]
+      rw [p2r_in (max bs cs) (min be (cs + seq.length)) (max start (max bs cs)) (by omega)]
+      simp only []
+      rw [p2r_in (max bs cs) (min be (cs + seq.length)) (min stop (min be (cs + seq.length)) - 1) (by omega)]
+      simp only []
+      have e3 : min stop (min be (cs + (seq.length : Int))) - 1 - max bs cs + 1
+          = min stop (min be (cs + seq.length)) - max bs cs := by omega
+      rw [e3, slice_slice seq (max bs cs - cs) (min be (cs + seq.length) - cs) _ _ (by omega) (by omega) (by omega)]
+      have e4 : max bs cs - cs + (max start (max bs cs) - max bs cs) = max start (max bs cs) - cs := by omega
+      have e5 : max bs cs - cs + (min stop (min be (cs + (seq.length : Int))) - max bs cs)
+          = min stop (min be (cs + seq.length)) - cs := by omega
+      rw [e4, e5]
+      exact mkChunk_ok _ _ _ (by omega) (by omega)
+        (by rw [slice_length _ _ _ (by omega) (by omega) (by omega)]; omega)
+    · have hge : max start (max bs cs) ≥ min stop (min be (cs + (seq.length : Int))) := by omega
+      simp only [hge, hlt, if_true, if_false]
+      rfl
 
 /-- bounds that miss the chunk: the collection's location is an EmptyLocation, which has no parent -/
 theorem subsetParent_chunk_off (src : Source) (cs : Int) (seq : List Char) (hp : src.par = .chunk cs seq)
